@@ -1,4 +1,7 @@
 import PysphVerif.Lemmas.Riemann
+import PysphVerif.Lemmas.RiemannHllc
+import PysphVerif.Lemmas.RiemannDucowicz
+import PysphVerif.Lemmas.RiemannExact
 /-!
 # C15 — Riemann solvers are reflection-symmetric; contact solvers are admissible
 
@@ -370,25 +373,134 @@ theorem vacuum_reported_exact (r0 r1 : K)
   simp only [exact, fieldOps_sqrt, Nat.cast_ofNat, Nat.cast_one, Nat.cast_zero]
   rw [if_pos hv]
 
-/-! ## stated, not proved here (covered by the oracle on the real code only)
+/-! ## `hllc` -/
 
-* `ducowicz`: its cases A and B are mirror images of themselves, case C is the
-  mirror image of case D, but D is taken unguarded while C is guarded
-  (DESIGN §7 F9).  Reflection symmetry therefore needs "exactly one of the
-  guards of C and D holds once A and B failed", a fact about the Dukowicz
-  two-shock quadratic that is not proved here; a 120-digit search found no
-  admissible state violating it, in double precision it fails only through
-  rounding at density ratios beyond ~1e12.
-* `hllc`, `exact`: reflection symmetry (for `exact` it needs
-  `pow (1/x) g = 1 / pow x g`), `exact`: Galilean invariance, scaling. -/
+theorem reflect_hllc (hs : SqrtPos sqrt) (hrl : 0 < rhol) (hrr : 0 < rhor) (hpl : 0 < pl)
+    (hpr : 0 < pr) (hg : 0 < gamma) :
+    ReflectSym (hllc (fieldOps sqrt pow)) rhol rhor pl pr ul ur gamma tol niter := by
+  intro r0 r1
+  rw [hllc_eq, hllc_eq]
+  simp only [fieldOps_sqrt]
+  have h := hllcFrom_mirror (sqrt rhol) (sqrt rhor) (sqrt (gamma * pl / rhol))
+    (sqrt (gamma * pr / rhor)) rhol rhor pl pr ul ur (1 / (gamma - 1)) r0 r1 (hs _ hrl) (hs _ hrr)
+    (hs _ (by positivity)) (hs _ (by positivity)) hrl hrr
+  exact ⟨h.1, fun _ => h.2⟩
 
-/-- full statement for the three solvers without a reflection theorem yet -/
-def ReflectSymRemaining (sqrt : K → K) (pow : K → K → K) : Prop :=
+theorem equal_states_hllc (hs : SqrtPos sqrt) (hrho : 0 < rho) (hp : 0 < p) (hg : 0 < gamma) :
+    EqualStates (hllc (fieldOps sqrt pow)) rho p u gamma tol niter := by
+  intro r0 r1
+  rw [hllc_eq]
+  simp only [fieldOps_sqrt]
+  rw [hllcFrom_equal _ _ _ _ _ _ _ _ (hs _ hrho) (hs _ (by positivity)) hp]
+  exact ⟨rfl, rfl, rfl⟩
+
+/-! ## `ducowicz`
+
+Cases A and B are mirror images of themselves, case C is the mirror image of
+case D, but D is taken unguarded while C is guarded (DESIGN §7 F9).  Reflection
+symmetry therefore holds exactly when, once A and B have failed, exactly one
+of the guard of C and the (untested) guard of D holds on the data at hand. -/
+
+/-- on the given data: if cases A and B of `ducowicz` fail, exactly one of the
+guard of case C (`u* ≥ umin, umax`) and the guard the source does not test
+before taking case D (`u* ≤ umin, umax`) holds -/
+def DucoCDExclusive (sqrt : K → K) (pow : K → K → K) (rhol rhor pl pr ul ur gamma : K) : Prop :=
+  let o := fieldOps sqrt pow
+  let bl := rhol * (1 / 2 * (gamma + 1))
+  let br := rhor * (1 / 2 * (gamma + 1))
+  let plmin := pl - 1 / 4 * rhol * sqrt (gamma * pl * rhol) * sqrt (gamma * pl * rhol) / (1 / 2 * (gamma + 1))
+  let prmin := pr - 1 / 4 * rhor * sqrt (gamma * pr * rhor) * sqrt (gamma * pr * rhor) / (1 / 2 * (gamma + 1))
+  let umin := ur - 1 / 2 * sqrt (gamma * pr * rhor) / (1 / 2 * (gamma + 1))
+  let umax := ul + 1 / 2 * sqrt (gamma * pl * rhol) / (1 / 2 * (gamma + 1))
+  ¬ ducoGA umin umax (ducoUA o bl br plmin prmin umin umax) →
+  ¬ ducoGB umin umax (ducoUB o bl br plmin prmin umin umax) →
+  (ducoGC umin umax (ducoUC o bl br plmin prmin umin umax) ↔
+    ¬ ducoGD umin umax (ducoUD o bl br plmin prmin umin umax))
+
+/-- reflection symmetry of `ducowicz` on every state where the unguarded last
+branch is taken only when its (untested) guard holds and the guarded third
+branch only when that guard fails; no other hypothesis on the data or on `sqrt` -/
+theorem reflect_ducowicz_partial
+    (hex : DucoCDExclusive sqrt pow rhol rhor pl pr ul ur gamma) :
+    ReflectSym (ducowicz (fieldOps sqrt pow)) rhol rhor pl pr ul ur gamma tol niter := by
+  intro r0 r1
+  rw [ducowicz_eq, ducowicz_eq]
+  simp only [fieldOps_sqrt]
+  have e1 : -ul - 1 / 2 * sqrt (gamma * pl * rhol) / (1 / 2 * (gamma + 1))
+      = -(ul + 1 / 2 * sqrt (gamma * pl * rhol) / (1 / 2 * (gamma + 1))) := by ring
+  have e2 : -ur + 1 / 2 * sqrt (gamma * pr * rhor) / (1 / 2 * (gamma + 1))
+      = -(ur - 1 / 2 * sqrt (gamma * pr * rhor) / (1 / 2 * (gamma + 1))) := by ring
+  rw [e1, e2]
+  have h := ducoTail_mirror sqrt pow _ _ _ _ _ _ hex
+  exact ⟨h.1, fun _ => h.2⟩
+
+/-- the unconditional statement.  It is FALSE as it stands: on the measure-zero
+set `umin = umax` (i.e. `ur - ul = (csl + csr)/(gamma + 1)`) with A and B failing,
+both guards hold and the two orientations take non-mirror branches; concrete
+double-precision input: `(rhol, rhor, pl, pr, ul, ur, gamma) = (1/4, 1/2, 1/2, 1/4, 0, 1/3, 2)`
+gives `(p*, u*) = (0.4028, 0.6478)` against `(0.3594, 0.1667)` for the mirror image
+(reported as a finding; the random oracle does not hit the set) -/
+def ReflectSymDucowicz (sqrt : K → K) (pow : K → K → K) : Prop :=
   ∀ rhol rhor pl pr ul ur gamma tol : K, ∀ niter : Int,
     0 < rhol → 0 < rhor → 0 < pl → 0 < pr → 1 < gamma →
-    ReflectSym (ducowicz (fieldOps sqrt pow)) rhol rhor pl pr ul ur gamma tol niter ∧
-    ReflectSym (hllc (fieldOps sqrt pow)) rhol rhor pl pr ul ur gamma tol niter ∧
-    ReflectSym (exact (fieldOps sqrt pow)) rhol rhor pl pr ul ur gamma tol niter
+    ReflectSym (ducowicz (fieldOps sqrt pow)) rhol rhor pl pr ul ur gamma tol niter
+
+/-- what `equal_states_ducowicz` assumes about `sqrt`: it inverts squaring on `x ≥ 0` -/
+def SqrtMulSelf (sqrt : K → K) : Prop := ∀ x : K, 0 ≤ x → sqrt (x * x) = x
+
+theorem equal_states_ducowicz (hs : SqrtPos sqrt) (hq : SqrtMulSelf sqrt) (hrho : 0 < rho)
+    (hp : 0 < p) (hg : 0 < gamma) :
+    EqualStates (ducowicz (fieldOps sqrt pow)) rho p u gamma tol niter := by
+  intro r0 r1
+  rw [ducowicz_eq]
+  simp only [fieldOps_sqrt]
+  have hc : 0 < sqrt (gamma * p * rho) := hs _ (by positivity)
+  generalize sqrt (gamma * p * rho) = c at hc
+  have hA : (0 : K) < 1 / 2 * (gamma + 1) := by positivity
+  generalize (1 : K) / 2 * (gamma + 1) = A at hA
+  have hh : 0 < 1 / 2 * c / A := by positivity
+  have hβ : 0 < rho * A := by positivity
+  rw [ducoTail_equal sqrt pow (rho * A) _ u (1 / 2 * c / A) hβ hh (hq _ (by positivity))]
+  have e : p - 1 / 4 * rho * c * c / A + rho * A * (1 / 2 * c / A) * (1 / 2 * c / A) = p := by
+    field_simp; ring
+  rw [e, pymax_eq_max, max_eq_left hp.le]
+  exact ⟨rfl, rfl, rfl⟩
+
+/-! ## `exact` — what is assumed about the abstract `pow` -/
+
+/-- `pow` is positive on positive bases (needed so that `pow (pl/pr) g ≠ 0` can be
+cancelled in the two-rarefaction starting guess) -/
+def PowPos (pow : K → K → K) : Prop := ∀ x g : K, 0 < x → 0 < pow x g
+
+/-- `pow x⁻¹ g = (pow x g)⁻¹` on positive bases: the mirrored two-rarefaction
+guess evaluates `pow (pr/pl) g` where the original evaluates `pow (pl/pr) g` -/
+def PowInv (pow : K → K → K) : Prop := ∀ x g : K, 0 < x → pow x⁻¹ g = (pow x g)⁻¹
+
+theorem reflect_exact (hpp : PowPos pow) (hpi : PowInv pow) (hpl : 0 < pl) (hpr : 0 < pr) :
+    ReflectSym (exact (fieldOps sqrt pow)) rhol rhor pl pr ul ur gamma tol niter := by
+  intro r0 r1
+  rw [exact_eq, exact_eq]
+  simp only [fieldOps_sqrt]
+  have hd : 0 < pl / pr := div_pos hpl hpr
+  refine exFrom_mirror sqrt pow _ _ _ _ _ _ _ _ _ rhol rhor pl pr ul ur niter tol r0 r1 ?_ ?_
+  · rw [← inv_div pl pr]; exact hpi _ _ hd
+  · exact (hpp _ _ hd).ne'
+
+theorem galilean_exact (hs : SqrtPos sqrt) (hpp : PowPos pow) (hrl : 0 < rhol) (hrr : 0 < rhor)
+    (hpl : 0 < pl) (hpr : 0 < pr) (hg : 0 < gamma) (c : K) :
+    GalileanInv (exact (fieldOps sqrt pow)) rhol rhor pl pr ul ur gamma tol niter c := by
+  intro r0 r1
+  rw [exact_eq, exact_eq]
+  simp only [fieldOps_sqrt]
+  have hcl : 0 < sqrt (gamma * pl / rhol) := hs _ (by positivity)
+  have hcr : 0 < sqrt (gamma * pr / rhor) := hs _ (by positivity)
+  have hq : 0 < pow (pl / pr) ((gamma - 1) * (1 / (2 * gamma))) := hpp _ _ (div_pos hpl hpr)
+  refine exFrom_shift (fieldOps sqrt pow) _ _ _ _ _ _ _ _ _ rhol rhor pl pr ul ur c niter tol r0 r1 ?_
+  simp only [fieldOps_pow]
+  have : 0 < pow (pl / pr) ((gamma - 1) * (1 / (2 * gamma))) / sqrt (gamma * pl / rhol)
+      + 1 / sqrt (gamma * pr / rhor) := by positivity
+  exact this.ne'
+
 end
 
 /-! ## non-vacuity: the hypotheses are satisfiable, the statements say something -/
